@@ -53,6 +53,12 @@ pub fn gen_sess_run(check: &str, seed: u64, tier: Tier, with_probes: bool) -> Ru
                 let i = w.below(k);
                 let j = (i + 1 + w.below(k - 1)) % k;
                 v.swap(i, j);
+                if k == 4 && w.chance(1, 2) {
+                    // a product of two disjoint transpositions: its restriction to a subset of the
+                    // slots is a symmetry of its own
+                    let rest: Vec<usize> = (0..4).filter(|x| *x != i && *x != j).collect();
+                    v.swap(rest[0], rest[1]);
+                }
                 let other = Tm::leaf(&format!("p{k}"), v);
                 let pos = w.below(ops.len() + 1);
                 ops.insert(pos, Op::new("union").t(leaf.clone()).t(other).i(w.below(2) as i64));
